@@ -14,7 +14,7 @@ META = {
                    "new-name token with the identifier class the property's table requires, or be "
                    "refused; success must be dominated by 'first token is Some, second is None', by the "
                    "alias refusal in find_def and by Package::is_local; prepare_rename and rename must "
-                   "have the same gates.",
+                   "have the same gates. V15 the regex attributes of the name and number tokens match ASCII only (logos compiles \\d, \\w in Unicode mode).",
     "not_decided": "that the edit set itself never touches a dependency when the symbol is local but "
                    "used from a dependency (behavioural).",
     "trusted_base": ["rustc MIR + callee resolution", "GleamLexer tokenises exactly as logos specifies"],
